@@ -5,7 +5,7 @@ LIBS = ['numeric-functions.cpp']
 META = {
     'bounds': 'phase/mu: all 2^32 values per query (one symbolic word); M is a per-query constant. quick: the property list '
               '{2,3,4,5,7,8,16,1000,1024,2048,4096,32768}, all powers of two 2..2^30, 2N for N in {2..2048}, 24 seeded M in '
-              '[2,2^15]. thorough: in addition every M in [2,4096] and 2000 seeded M in (4096,2^15].',
+              '[2,2^15]. thorough: in addition every M in [2,1024] and 500 seeded M in (1024,2^15].',
     'outside': 'M = 2^31 is not representable in the int32_t Msize parameter; non powers of two above 2^15; symbolic M '
                '(no back-end finishes beyond M<=16). The nearest-integer statement is the exact one '
                '(|M*phase - r*2^32| <= 2^31 on the circle, 128-bit oracle); ties are accepted either way as the property says.',
@@ -22,8 +22,8 @@ def queries(tier, seed):
     Ms += [2 * (1 << k) for k in range(1, 12)]
     Ms += [rnd.randrange(2, 1 << 15) for _ in range(24)]
     if tier == 'thorough':
-        Ms += list(range(2, 4097))
-        Ms += [rnd.randrange(4097, 1 << 15) for _ in range(2000)]
+        Ms += list(range(2, 1025))
+        Ms += [rnd.randrange(1025, 1 << 15) for _ in range(500)]
     seen = set()
     out = []
     first = True
